@@ -23,6 +23,7 @@ type Promise struct {
 	cutParent *Promise
 	repeat    bool
 	recover   func(error) *Promise
+	exited    *Promise
 }
 
 // Delay delays an execution of k.
@@ -71,6 +72,15 @@ func catch(recover func(error) *Promise, k func(context.Context) *Promise) *Prom
 	return &Promise{
 		delayed: []func(context.Context) *Promise{k},
 		recover: recover,
+	}
+}
+
+// exit returns a promise that marks the goal of the catch promise c has exited. While the continuation k is
+// executed, c doesn't intercept errors. Once k fails and the execution backtracks into the goal, c is active again.
+func exit(c *Promise, k func(context.Context) *Promise) *Promise {
+	return &Promise{
+		delayed: []func(context.Context) *Promise{k},
+		exited:  c,
 	}
 }
 
@@ -132,6 +142,15 @@ func panicError(r interface{}) error {
 	return fmt.Errorf("panic: %v", r)
 }
 
+func (p *Promise) isIn(ps []*Promise) bool {
+	for _, q := range ps {
+		if p == q {
+			return true
+		}
+	}
+	return false
+}
+
 type promiseStack []*Promise
 
 func (s *promiseStack) pop() *Promise {
@@ -150,9 +169,17 @@ func (s *promiseStack) popUntil(p *Promise) {
 
 func (s *promiseStack) recover(err error) error {
 	// look for an ancestor promise with a recovering function that is applicable to the error.
+	var exited []*Promise
 	for len(*s) > 0 {
 		pop := s.pop()
+		if pop.exited != nil {
+			exited = append(exited, pop.exited)
+			continue
+		}
 		if pop.recover == nil {
+			continue
+		}
+		if pop.isIn(exited) { // The error was raised after the goal had exited.
 			continue
 		}
 		if q := pop.recover(err); q != nil {
